@@ -97,7 +97,8 @@ def gen_sum(rng, n, tier):
             tracks.append([[rng.randint(0, W * 2) / 2.0, rng.randint(0, H * 2) / 2.0, (None if rng.random() < 0.2 else float(rng.choice([0, 1, 2, -3, 7, 0.5, 2.25])))] for _ in range(k)])
         tracks[0][0][0] = 0.0; tracks[0][0][1] = 0.0
         tracks[0].append([float(W), float(H), 1.0])       # the bounding box is [0,W] x [0,H]
-        out.append({'tracks': tracks, 'res': [rng.choice([0.5, 1, 2, 3]), rng.choice([0.5, 1, 2, 3])], 'margin': rng.choice([0.0, 0.0, 0.25, 0.5])})
+        out.append({'tracks': tracks, 'res': [rng.choice([0.5, 1, 2, 3]), rng.choice([0.5, 1, 2, 3])], 'margin': rng.choice([0.0, 0.0, 0.25, 0.5]),
+                    'order': rng.sample(OPS, len(OPS))})
     return out
 
 
@@ -113,7 +114,7 @@ def run_sum(case):
         t.createAnalyticalFeature('f', [nan if v is None else v for (_, _, v) in pts])
         trs.append(t)
     col = TrackCollection(trs)
-    ops = [getattr(U, o) for o in OPS]
+    ops = [getattr(U, o) for o in case.get('order', OPS)]          # the aggregates are computed in the order they are asked for: every order must give the same maps
     r = sm.summarize(col, ['f'] * len(ops), ops, resolution=tuple(case['res']), margin=case['margin'], verbose=False)
     grids = {}
     for o in OPS:
